@@ -1,6 +1,7 @@
 package checks
 
 import (
+	"bytes"
 	"encoding/hex"
 	"encoding/json"
 	"os"
@@ -50,6 +51,20 @@ type Built struct {
 	// for multi: contents of the parts and the offsets where each part ends
 	PartEnds []int
 	Err      error
+}
+
+// fromLibrary reports whether the stream, or a part of it, is written by the
+// library under test (whose validity is the business of C01/C02/C06/C08).
+func (s *StreamRecipe) fromLibrary() bool {
+	if s.Kind == "lib" {
+		return true
+	}
+	for i := range s.Parts {
+		if s.Parts[i].fromLibrary() {
+			return true
+		}
+	}
+	return false
 }
 
 // Build realises the recipe. Errors (e.g. liblzma absent) are returned in Err.
@@ -132,7 +147,10 @@ func (s *StreamRecipe) Build() *Built {
 		x := sim.NewCtx(false)
 		res := runWriter(s.W, x)
 		b := &Built{Stream: res.Sink.Image, Content: res.Log, Format: s.W.Format, Dict: int64(s.W.dictCap())}
-		if res.AnyErr || res.AnyPanic || res.CloseIdx < 0 {
+		if res.AnyErr || res.AnyPanic || res.CloseIdx < 0 || !refAccepts(b) {
+			// the writer failed, or the reference decoder does not get the
+			// content back from what it wrote: not a usable input for a reader
+			// check; the writer checks (C01/C02/C06/C08) judge that
 			b.Err = errWriterFailed
 		}
 		return b
@@ -183,6 +201,23 @@ func (s *StreamRecipe) Build() *Built {
 type errString string
 
 func (e errString) Error() string { return string(e) }
+
+// refAccepts reports whether the reference decoder of the stream's format
+// decodes it to the stated content.
+func refAccepts(b *Built) bool {
+	switch b.Format {
+	case "xz":
+		f, err := refxz.Parse(b.Stream, false)
+		return err == nil && bytes.Equal(f.Content, b.Content)
+	case "lzma":
+		r, err := reflzma.DecodeAlone(b.Stream, false)
+		return err == nil && bytes.Equal(r.Out, b.Content)
+	case "lzma2":
+		r, err := reflzma.DecodeLZMA2(b.Stream, b.Dict, true, false)
+		return err == nil && bytes.Equal(r.Out, b.Content)
+	}
+	return true
+}
 
 const errWriterFailed = errString("library writer failed while producing a stream for a reader check")
 
